@@ -18,6 +18,9 @@ if $compiles; then
   cargo nextest run --workspace --no-fail-fast --tool-config-file pb:/w/lib/nextest.toml --profile pb --test-threads 8 --offline >/tmp/wt-confirm.test.log 2>&1
   grep -E "^\s+FAIL" /tmp/wt-confirm.test.log | sed -E 's/.*\) +//' | sort -u > /tmp/wt-confirm.fails.txt
   if cmp -s /tmp/wt-confirm.fails.txt /verif/.cache/baseline-fails.txt; then suite=same-53-failures; else suite="DIFFERS: $(diff /tmp/wt-confirm.fails.txt /verif/.cache/baseline-fails.txt | head -5 | tr '\n' ' ')"; fi
+  # (a hanging seeded change can leave processes of the previous patched binary behind)
+  for pid in $(pgrep -f "^/tmp/wt-confirm.zerv-patched" 2>/dev/null); do kill -9 $pid 2>/dev/null; done
+  rm -f /tmp/wt-confirm.zerv-patched
   cp target/debug/zerv /tmp/wt-confirm.zerv-patched
   ( cd "$out" && timeout 300 bash ./demo.sh /tmp/wt-confirm.zerv-patched >/tmp/wt-confirm.demo1.log 2>&1 ); demo_patched=$?
 fi
@@ -32,7 +35,7 @@ runcheck() { # tier, extra args...; SEEDED_DIRECT=1: do not touch /repo, hand th
   tier="$1"; shift
   if [ "${SEEDED_DIRECT:-0}" = 1 ]; then
     ZSIM_VERIF_DIR=/verif ZSIM_ZERV=/tmp/wt-confirm.zerv-patched ZSIM_SHIM=/verif/.cache/clock.so ZSIM_PROXY="${SEEDED_ZSIM_DIR:-/verif/zsim/target/release}/zsim-git" \
-      "${SEEDED_ZSIM_DIR:-/verif/zsim/target/release}/zsim" run "$id" "$tier" --no-evidence "$@"
+      timeout 2400 "${SEEDED_ZSIM_DIR:-/verif/zsim/target/release}/zsim" run "$id" "$tier" --no-evidence "$@"
   else
     tools/runmutant.sh "$out/patch.diff" "$id" "$tier" "$@"
   fi
